@@ -24,11 +24,35 @@ Fixpoint is_infix (fuel : nat) (p s : bytes) : bool :=
   | S f => has_prefix p s || match s with [] => false | _ :: s' => is_infix f p s' end
   end.
 
+(* net/url is specified, not modelled (Model/Torfile.v: url_ok, http_url), and only on the shapes the
+   generator writes: lower-case scheme, "://", then printable ASCII without spaces, quotes, angle
+   brackets, backslashes, '%' or '['.  When a byte mutation has produced anything else in a URL of
+   the input, the lists of trackers and web seeds are not compared. *)
+Definition plain_url_char (c : N) : bool :=
+  (33 <=? c) && (c <=? 126) && negb ((c =? 34) || (c =? 37) || (c =? 60) || (c =? 62) || (c =? 91) || (c =? 92) || (c =? 93) || (c =? 94) || (c =? 96) || (c =? 123) || (c =? 124) || (c =? 125)).
+Fixpoint after_scheme (u : bytes) : option bytes :=
+  match u with
+  | 58 :: 47 :: 47 :: r => Some r
+  | c :: r => if (97 <=? c) && (c <=? 122) then after_scheme r else None
+  | [] => None
+  end.
+Definition specified_url (u : bytes) : bool :=
+  match u with
+  | [] => true
+  | _ => forallb plain_url_char u && match after_scheme u with Some (_ :: _) => true | _ => false end
+  end.
+Definition urls_specified (bs : bytes) : bool :=
+  match decode_btor bs with
+  | Some b => specified_url (b_announce b) && forallb (forallb specified_url) (b_alist b) &&
+              forallb specified_url (b_urllist b) && forallb specified_url (b_httpseeds b)
+  | None => true
+  end.
+
 Definition corr13 (c : tcase) : bool :=
   match read_torrent (t_input c), t_obs c with
   | ROk raw g cd tr ul hs, TObsOk info g' cd' tr' ul' hs' _ _ wr =>
       bytes_eqb raw info && geometry_eqb g g' && (cd =? cd')%Z &&
-      list_eqb strs_eqb tr tr' && strs_eqb ul ul' && strs_eqb hs hs' &&
+      (negb (urls_specified (t_input c)) || (list_eqb strs_eqb tr tr' && strs_eqb ul ul' && strs_eqb hs hs')) &&
       (* tor.WriteTorrent's bytes are those of the model (Model/TorWrite.v) *)
       bytes_eqb wr (write_torrent info cd' tr' ul' hs')
   | RErr, TObsErr => true
